@@ -115,6 +115,9 @@ class Residue():
                     return list(self.shx.residues.residue_numbers.keys())  # type: ignore
                 else:
                     return [int(suffix)]
+        if not self.residue_class:
+            # Without a residue number or class on the instruction, residue 0 is addressed:
+            return [0]
         return self.shx.residues.residue_classes.get(self.residue_class, [0])  # type: ignore
 
 
